@@ -126,6 +126,59 @@ def run_history(target, args):
     return out
 
 
+NVALS = [-2, -1, 0, 1, 2, 300]
+
+
+def neighbours(args):
+    """The argument tuples that differ from `args` in one position, by one unit or by the sign
+    (-1 and -2 included for a reason: they are the two small integers with the same hash)."""
+    out = []
+    for pos, val in enumerate(args):
+        if not isinstance(val, int):
+            continue
+        for other in {val - 1, val + 1, -val} - {val}:
+            out.append(tuple(args[:pos]) + (other,) + tuple(args[pos + 1:]))
+    return out
+
+
+def run_neighbour(target, args, first):
+    """`first` (a neighbouring argument tuple) is put to the target, then `args`: a table of
+    recent results indexed by something weaker than the arguments hands the first answer out
+    again.  Returns [message]."""
+    func = getattr(_lib(), target)
+    try:
+        func(*first)
+    except Exception:                       # pylint: disable=broad-except
+        pass
+    try:
+        got = func(*args)
+    except Exception as exc:                # pylint: disable=broad-except
+        if verdict(target, args, None) is not None:
+            return [f"{target}{tuple(args)!r} raised {type(exc).__name__}: {exc} right after "
+                    f"{target}{tuple(first)!r}"]
+        return []
+    bad = verdict(target, args, got)
+    return [f"{bad} - right after the call {target}{tuple(first)!r}"] if bad else []
+
+
+def neighbour_chunk(job):
+    target, items = job
+    part = core.Part()
+    for args in items:
+        if verdict(target, args, object()) is None:
+            continue                        # outside the function's domain: nothing to judge
+        accum = args[-1] if target in ("move_dist_lt", "calculate_lm") or len(args) == 5 else 0
+        if isinstance(accum, int) and not 0 <= accum < TWO31:
+            continue                        # a start accumulator is a value in [0, 2^31)
+        for first in neighbours(args):
+            for msg in run_neighbour(target, args, first):
+                part.violation(f"neighbour:{target}:{args}:{first}", msg,
+                               {"kind": "calc_neighbour", "target": target, "args": list(args),
+                                "first": list(first)})
+            part.count("calc_neighbour_histories")
+    return part
+
+
 def chunk(job):
     target, items = job
     part = core.Part()
@@ -225,6 +278,12 @@ def explore_fresh(targets):
 def explore(ctx, targets):
     jobs = [(t, items) for t in targets for items in core.split(tuples(), 16)]
     part = core.fan_out(ctx, chunk, jobs)
+    near = list(itertools.product(NVALS, repeat=4))
+    near += [t + (core.RUNTIME_CLEAR,) for t in itertools.product(NVALS, repeat=3)]
+    jobs = [(t, [a for a in items
+                 if not (t in ("rate_t3", "max_rate_t3", "move_dist_t3") and a[-1] == "clear")])
+            for t in targets for items in core.split(near, 8)]
+    part.merge(core.fan_out(ctx, neighbour_chunk, jobs))
     part.merge(explore_fresh(targets))
     return part
 
@@ -233,6 +292,8 @@ def replay(case):
     if case.get("kind") == "calc_fresh":
         crashed, bad = run_fresh(case["target"], [tuple(case["args"])])
         return crashed + [m for _a, m in bad]
+    if case.get("kind") == "calc_neighbour":
+        return run_neighbour(case["target"], tuple(case["args"]), tuple(case["first"]))
     return run_history(case["target"], tuple(case["args"]))
 
 
